@@ -35,7 +35,16 @@ with cf.ThreadPoolExecutor(max_workers=int(os.environ.get('WORKERS','5'))) as ex
         if 'error' in res: print(seed,'ERROR',res['error']); continue
         caught=[p for p,r in res.items() if r['rc']==1]
         print(seed,'caught by',caught or 'NOTHING', '|', res.get(seed.split('-')[0],{}).get('first','')[:260], flush=True)
-if os.environ.get('ONLY_OWN'): sys.exit(0)
+if os.environ.get('ONLY_OWN') and not os.environ.get('OWN_UPDATE'): sys.exit(0)
+if os.environ.get('OWN_UPDATE'):
+    # refresh only the own-property column of an existing matrix (the other columns keep the results of the last full run)
+    full=json.load(open(f'{V}/seeded/MATRIX.json')) if os.path.exists(f'{V}/seeded/MATRIX.json') else {}
+    for seed,res in out.items():
+        if 'error' in res: full[seed]=res; continue
+        cur=full.get(seed,{})
+        if 'error' in cur: cur={}
+        cur.update(res); full[seed]=cur
+    out=full; sys.argv=sys.argv[:1]
 old={}
 if os.path.exists(f'{V}/seeded/MATRIX.json') and sys.argv[1:]:
     old=json.load(open(f'{V}/seeded/MATRIX.json'))
